@@ -140,13 +140,13 @@ Proof.
     [split; discriminate|lia].
 Qed.
 
-(* the decoder checks the upper bound only: inside [base, max] it is fine ... *)
-Theorem dec_no_panic_above_base ta p : ta_ok ta -> w64 p -> ta_base ta <= p ->
-  dec_norace ta p <> Panic /\ dec_race ta p <> Panic.
+(* the decoder tests both bounds like the encoder *)
+Theorem dec_never_panics ta p : ta_ok ta -> w64 p -> dec_norace ta p <> Panic /\ dec_race ta p <> Panic.
 Proof.
-  intros (Hb & Hm & Hr & _) Hp Hge. unfold dec_norace, dec_race, lookup, dec_norace_slow, dec_race_slow,
+  intros (Hb & Hm & Hr & _) Hp. unfold dec_norace, dec_race, lookup, dec_norace_slow, dec_race_slow,
     dec_norace_index, dec_race_index, dec_cache_len.
-  destruct (ta_max ta <? p) eqn:G; [split; discriminate|].
+  destruct ((ta_max ta <? p) || (p <? ta_base ta)) eqn:G; [split; discriminate|].
+  assert (ta_base ta <= p <= ta_max ta) as Hin by lia.
   rewrite Hr, !subw_le by (unfold w64 in *; lia).
   assert (N.shiftr (p - ta_base ta) (ta_shift ta) <= N.shiftr (ta_max ta - ta_base ta) (ta_shift ta))
     by (apply shiftr_le; lia).
@@ -154,12 +154,12 @@ Proof.
     [split; discriminate|lia].
 Qed.
 
-(* ... below base the subtraction wraps *)
-Theorem dec_below_base_panics :
-  exists l p, Forall sample_ok l /\ w64 p /\ dec_norace (effective l) p = Panic /\ enc_norace (effective l) p = Slow.
+(* a descriptor outside the window (below base or above max) takes the map path in all four lookups *)
+Theorem outside_window_takes_map_path ta p : (p < ta_base ta \/ ta_max ta < p) ->
+  enc_norace ta p = Slow /\ enc_race ta p = Slow /\ dec_norace ta p = Slow /\ dec_race ta p = Slow.
 Proof.
-  exists [ {| s_addr := 4096; s_ptr := false; s_elem := 0 |}; {| s_addr := 4200; s_ptr := false; s_elem := 0 |} ], 64.
-  split; [repeat constructor; unfold w64, two64; cbn; lia|]. split; [unfold w64, two64; lia|]. vm_compute. split; reflexivity.
+  intro H. unfold enc_norace, enc_race, dec_norace, dec_race, lookup, enc_norace_slow, enc_race_slow, dec_norace_slow, dec_race_slow.
+  assert (G : (ta_max ta <? p) || (p <? ta_base ta) = true) by lia. rewrite G. repeat split.
 Qed.
 
 (* ---------- one slot, one type ---------- *)
@@ -355,26 +355,25 @@ Proof.
     destruct Hlook as [->| ->]; contradiction.
 Qed.
 
-(* decoder, both builds: the same, for types that do not lie below the lowest sampled descriptor *)
+(* decoder, both builds: the same *)
 Theorem dec_own_program l live types schedule :
   Forall sample_ok l -> layout_ok (effective l) live -> Forall live types ->
-  (forall a, live a -> ta_base (effective l) <= a) ->
   forall look, (look = dec_norace (effective l) \/ look = dec_race (effective l)) ->
   forall t pcv, In (t, pcv) (snd (run look (start types) schedule)) ->
     (forall q, pcv = Done q -> q = t) /\ pcv <> Crashed.
 Proof.
-  intros Hl Hlay Hty Hbase look Hlook t pcv Hin.
+  intros Hl Hlay Hty look Hlook t pcv Hin.
   pose proof (effective_ok l Hl) as Hta.
   assert (forall a b i, live a -> live b -> look a = Fast i -> look b = Fast i -> a = b) as Hinj.
   { destruct Hlook as [->| ->]; unfold dec_norace, dec_race;
       apply (fast_injective _ _ _ (effective l) live); try assumption; try reflexivity;
-      intros p Lp _; exact (Hbase p Lp). }
+      intros p _ Hs; unfold dec_norace_slow, dec_race_slow in Hs; lia. }
   split.
   - intros q ->. exact (own_program look live Hinj types schedule t q Hty Hin).
   - intros ->. pose proof (crash_only_on_panic look live Hinj types schedule t Hty Hin) as Hp.
     assert (live t) as Lt.
     { destruct (run_inv look live Hinj schedule _ (start_inv look live types Hty)) as [_ Hts].
       pose proof (proj1 (Forall_forall _ _) Hts _ Hin) as H. destruct H as [H _]. exact H. }
-    destruct Hlay as (Hw & _). destruct (dec_no_panic_above_base (effective l) t Hta (Hw t Lt) (Hbase t Lt)) as [H1 H2].
+    destruct Hlay as (Hw & _). destruct (dec_never_panics (effective l) t Hta (Hw t Lt)) as [H1 H2].
     destruct Hlook as [->| ->]; contradiction.
 Qed.
